@@ -11,6 +11,8 @@ mod sas_lang;
 mod tests;
 mod text;
 pub(crate) mod token_type;
+#[cfg(sas_lexer_verif)]
+pub mod verif;
 
 use bit_vec::BitVec;
 use buffer::{
@@ -105,6 +107,14 @@ struct Lexer<'src> {
     /// and the mode stack.
     #[cfg(debug_assertions)]
     last_state: (u32, Vec<LexerMode>),
+
+    /// Verification hook: number of main loop iterations started so far
+    #[cfg(sas_lexer_verif)]
+    verif_iters: u64,
+
+    /// Verification hook: optional control block (budget, tracing, output)
+    #[cfg(sas_lexer_verif)]
+    verif: Option<verif::VerifCtl>,
 }
 
 /// Result of lexing
@@ -159,6 +169,10 @@ impl Lexer<'_> {
             checkpoint: None,
             macro_nesting_level,
             pending_stat_stack: BitVec::from_elem(1, false),
+            #[cfg(sas_lexer_verif)]
+            verif_iters: 0,
+            #[cfg(sas_lexer_verif)]
+            verif: None,
         })
     }
 
@@ -451,6 +465,13 @@ impl Lexer<'_> {
         let mut max_mode_stack_depth = 0usize;
 
         while let Some(next_char) = self.cursor.peek() {
+            #[cfg(sas_lexer_verif)]
+            {
+                if verif::on_iter(&mut self) {
+                    break;
+                }
+            }
+
             self.lex_token(next_char);
 
             #[cfg(any(feature = "opti_stats", test))]
@@ -488,6 +509,11 @@ impl Lexer<'_> {
                 };
                 self.last_state = new_state;
             }
+        }
+
+        #[cfg(sas_lexer_verif)]
+        {
+            verif::on_end(&mut self);
         }
 
         self.finalize_lexing();
